@@ -209,3 +209,130 @@ func sumFuncField(f *ssa.Function) string {
 }
 
 var _ ssa.Value
+
+// ruleCheckedArithmetic verifies the three helpers whose success edges the balance guards (C02.R1-R3, C03.R8)
+// take as exact arithmetic:
+//   - OverflowAddUint64(a, b): a return with flag false returns a+b and lies behind "the sum did not wrap"
+//     (!(a+b < a) or !(a+b < b), or the carry of bits.Add64(a, b, 0) is zero);
+//   - UnderflowSubUint64(a, b): a return with flag false returns a-b and lies behind !(a < b);
+//   - AmountChecked: whole-range loop over the list, the running total is only ever the checked sum of the
+//     previous total and the element's amount, and the next element (or the success return) is reached only when
+//     THAT addition's overflow flag was false - the flag is tested once per addition, not once after the loop.
+func (c *Ctx) ruleCheckedArithmetic(rule string) {
+	R := c.R
+	if f := c.fn(rule, "cashu.OverflowAddUint64"); f != nil {
+		fk := c.P.FuncKey(f)
+		o := c.P.OriginsOf(f)
+		a, b := "P:"+f.Params[0].Name(), "P:"+f.Params[1].Name()
+		sum1, sum2 := "("+a+" + "+b+")", "("+b+" + "+a+")"
+		isSum := func(e *Ex) bool { return e != nil && (e.String() == sum1 || e.String() == sum2) }
+		isAdd64 := func(e *Ex, idx int) bool {
+			return e != nil && isCall(e, "math/bits.Add64") && e.Idx == idx &&
+				((exprIs(arg(e, 0), a) && exprIs(arg(e, 1), b)) || (exprIs(arg(e, 0), b) && exprIs(arg(e, 1), a))) && isConst(arg(e, 2), "0")
+		}
+		noWrap := &Cond{Name: "the sum did not wrap", Match: func(ft *Fact, _ *Origins) bool {
+			if ft.Kind != "cmp" {
+				return false
+			}
+			op := ft.Op.String()
+			// sum < a (or b): false edge; a <= sum: true edge (the engine normalises operand order)
+			if isSum(ft.A) && (exprIs(ft.B, a) || exprIs(ft.B, b)) {
+				return (op == "<" && !ft.Pos) || (op == ">=" && ft.Pos)
+			}
+			if isSum(ft.B) && (exprIs(ft.A, a) || exprIs(ft.A, b)) {
+				return (op == ">" && !ft.Pos) || (op == "<=" && ft.Pos)
+			}
+			if isAdd64(ft.A, 1) && isConst(ft.B, "0") {
+				return (op == "==" && ft.Pos) || (op == "!=" && !ft.Pos)
+			}
+			return false
+		}}
+		n := 0
+		for _, r := range Returns(f) {
+			if len(r.Results) != 2 || !isConst(o.Of(r.Results[1]), "false") {
+				if len(r.Results) == 2 && !isConst(o.Of(r.Results[1]), "true") {
+					R.Undecided(rule, fk, "overflow flag is a constant per return", c.P.InstrPos(r), "checked addition", "flag is "+short(o.Of(r.Results[1]).String(), 80))
+				}
+				continue
+			}
+			n++
+			v := o.Of(r.Results[0])
+			okV := isSum(v) || isAdd64(v, 0)
+			R.Check(rule, fk, "no-overflow answer returns a + b", c.P.InstrPos(r), okV, "the value returned with flag false is the sum of the two arguments", short(v.String(), 100))
+			ok, why := o.Requires(r, noWrap)
+			R.Check(rule, fk, "no-overflow answer <= the sum did not wrap", c.P.InstrPos(r), ok, "flag false is returned only when a + b did not wrap around", why)
+		}
+		if n == 0 {
+			R.Check(rule, fk, "no-overflow answer exists", c.P.Pos(f.Pos()), false, "the helper can answer 'no overflow'", "no return with flag false")
+		}
+	}
+	if f := c.fn(rule, "cashu.UnderflowSubUint64"); f != nil {
+		fk := c.P.FuncKey(f)
+		o := c.P.OriginsOf(f)
+		a, b := "P:"+f.Params[0].Name(), "P:"+f.Params[1].Name()
+		noUnder := &Cond{Name: "b <= a", Match: func(ft *Fact, _ *Origins) bool {
+			if ft.Kind != "cmp" {
+				return false
+			}
+			op := ft.Op.String()
+			if exprIs(ft.A, a) && exprIs(ft.B, b) {
+				return (op == "<" && !ft.Pos) || (op == ">=" && ft.Pos)
+			}
+			if exprIs(ft.A, b) && exprIs(ft.B, a) {
+				return (op == ">" && !ft.Pos) || (op == "<=" && ft.Pos)
+			}
+			return false
+		}}
+		n := 0
+		for _, r := range Returns(f) {
+			if len(r.Results) != 2 || !isConst(o.Of(r.Results[1]), "false") {
+				continue
+			}
+			n++
+			v := o.Of(r.Results[0])
+			R.Check(rule, fk, "no-underflow answer returns a - b", c.P.InstrPos(r), v.String() == "("+a+" - "+b+")", "the value returned with flag false is the difference of the two arguments", short(v.String(), 100))
+			ok, why := o.Requires(r, noUnder)
+			R.Check(rule, fk, "no-underflow answer <= b <= a", c.P.InstrPos(r), ok, "flag false is returned only when b <= a", why)
+		}
+		if n == 0 {
+			R.Check(rule, fk, "no-underflow answer exists", c.P.Pos(f.Pos()), false, "the helper can answer 'no underflow'", "no return with flag false")
+		}
+	}
+	if f := c.fn(rule, fnAmountChecked); f != nil {
+		fk := c.P.FuncKey(f)
+		o := c.P.OriginsOf(f)
+		list := "P:" + f.Params[0].Name()
+		el := "elem(" + list + ").Amount"
+		// the running total: 0, then the checked sum of (itself, element amount)
+		var addCall ssa.CallInstruction
+		for _, ci := range Calls(f) {
+			if c.P.Describe(ci).Name == "cashu.OverflowAddUint64" {
+				if addCall != nil {
+					addCall = nil
+					break
+				}
+				addCall = ci
+			}
+		}
+		if addCall == nil {
+			R.Check(rule, fk, "sum built with the checked addition", c.P.Pos(f.Pos()), false, "the total is accumulated with exactly one OverflowAddUint64 call per element", "no (or more than one) OverflowAddUint64 call")
+			return
+		}
+		d := c.P.Describe(addCall)
+		a0, a1 := o.Of(d.Args[0]), o.Of(d.Args[1])
+		okAcc := a1.String() == el && strings.Contains(a0.String(), "phi{#0 | cashu.OverflowAddUint64#0(self:") && o.Loops.InnermostContaining(addCall.Block()) != nil
+		R.Check(rule, fk, "running total = checked sum of the previous total and the element's amount", c.P.InstrPos(addCall), okAcc,
+			"each element's amount is added to the running total (starting at 0) with the checked addition", "adds "+short(a1.String(), 60)+" to "+short(a0.String(), 100))
+		// per element: the flag of that addition is false before the next element / the success return
+		flagFalse := &Cond{Name: "overflow flag of the addition is false", ForAll: list, Match: func(ft *Fact, _ *Origins) bool {
+			return ft.Kind == "bool" && !ft.Pos && ft.A != nil && ft.A.K == "call" && ft.A.Call == addCall && ft.A.Idx == 1
+		}}
+		R.Check(rule, fk, "every addition's overflow flag is tested before the next element", c.P.InstrPos(addCall), o.SuccessCut(flagFalse),
+			"success is returned only when, for every element of the whole list, the addition of that element reported no overflow", "a success return is reachable without the per-element flag test")
+		for _, r := range o.SuccessReturns() {
+			v := o.Of(r.Results[0])
+			okR := strings.Contains(v.String(), "cashu.OverflowAddUint64#0(self:") && strings.Contains(v.String(), el)
+			R.Check(rule, fk, "success returns the running total", c.P.InstrPos(r), okR, "the value returned with a nil error is the accumulated checked sum", short(v.String(), 120))
+		}
+	}
+}
